@@ -18,6 +18,7 @@ class StmtMixin(object):
         m = getattr(self, "st_" + type(st).__name__, None)
         if m is None:
             raise Unsupported("statement %s" % type(st).__name__)
+        self.covered.add(id(st))
         m(st)
         self.after_stmt(st)
 
